@@ -31,7 +31,7 @@ RULE = (
 ASSUMPTIONS = [
     "reference constructions are the author's reading of the formats, calibrated at start-up: AHAB SRK hash of tests' ecc256 SRK set equals the value asserted in the repository's fuse test, HAB SRK table and fuse file of four RSA-4096 CA certificates equal the CST-made files",
     "AHAB/HAB SRK records carry a CA flag taken from the certificate; it is record content, so invariance is asserted between input forms with the same CA attribute (non-CA certificate vs bare keys; PEM vs DER of one certificate)",
-    "AHAB SRK table v2 (srk_table_ahab_v2) is checked for path/encoding invariance and order sensitivity only (no independent encoder)",
+    "AHAB SRK table v2 (srk_table_ahab_v2): the reference encoder is the one of the C06 container walker (calibrated there on stored version-2 containers)",
 ]
 FLOORS = {"kind:cb1": 0.1, "kind:cb21": 0.1, "kind:ahab": 0.05, "kind:hab": 0.05, "multi_key": 0.3}
 
@@ -139,6 +139,9 @@ def _self_cert(desc, ca: bool):
     return _CERT_CACHE[k]
 
 
+_SLOT = [0]
+
+
 def _supply(desc, enc: str, work: str, password: str | None, ca: bool = False):
     """One key in the requested input form (what a user may pass to Rot / RKHT.from_keys)."""
     from spsdk.crypto.certificate import Certificate
@@ -175,6 +178,15 @@ def _supply(desc, enc: str, work: str, password: str | None, ca: bool = False):
     else:
         raise AssertionError(enc)
     if enc.startswith("path_"):
+        if hashlib.sha256(data).digest()[0] % 2:
+            # everyday file names in a folder of this process: the same 64 names come round again with other keys in them
+            _SLOT[0] = (_SLOT[0] + 1) % 64
+            folder = os.path.join(work, "keys-%d" % os.getpid())
+            os.makedirs(folder, exist_ok=True)
+            path = os.path.join(folder, "root%d.%s" % (_SLOT[0], "pem" if enc.endswith("pem") else "der"))
+            with open(path, "wb") as f:
+                f.write(data)
+            return path
         path = os.path.join(work, "k-%s-%s.bin" % (hashlib.sha256(data).hexdigest()[:16], enc))
         if not os.path.exists(path):
             with open(path, "wb") as f:
@@ -554,6 +566,13 @@ def _run_ahab(case, o, fams, work) -> None:
             Rot(family, others[case["family"] // 7 % len(others)], [_supply(d, "pub_der", work, None) for d in descs]).calculate_hash()
         rot = Rot(family, rev, [_supply(d, e, work, None) for d, e in zip(descs, encs)])
         h1 = rot.calculate_hash()
+        if v2:
+            # version-2 table: records carry the hash of their SRK data block (record number inside); the fuse value is SHA-512 of the table
+            from vf.ref import ahab_check as AC
+
+            table = AC.build_srk_table_v2(raw)
+            o.eq("reference", "ahab_v2.srk_hash", h1, hashlib.sha512(table).digest())
+            o.eq("reference", "ahab_v2.srk_table", rot.export()[: len(table)], table)
         if not v2:
             o.eq("reference", "ahab.srk_hash", h1, R.ahab_srk_hash(raw))
             o.eq("reference", "ahab.srk_table", rot.export(), R.ahab_srk_table(raw))
